@@ -787,7 +787,12 @@ func (fr *Frame) enterLoop(h *ssa.BasicBlock, li *loopInfo, order []*ssa.BasicBl
 	saveRets := len(fr.rets)
 	saveCands := len(fc.cands)
 	activeLogs[fc] = append(activeLogs[fc], log)
+	saveFloor := fc.stampFloor
+	if fc.stampFloor < 0 || saveFacts < fc.stampFloor {
+		fc.stampFloor = saveFacts
+	}
 	fr.runBlocks(order, entrySt, r, li)
+	fc.stampFloor = saveFloor
 	activeLogs[fc] = activeLogs[fc][:len(activeLogs[fc])-1]
 	fc.facts = fc.facts[:saveFacts]
 	fc.obls = fc.obls[:saveObls]
@@ -954,6 +959,21 @@ func (fr *Frame) enterLoop(h *ssa.BasicBlock, li *loopInfo, order []*ssa.BasicBl
 		v := fr.havocVal(phi.Type(), "loop_"+phi.Name())
 		fr.env[phi] = v
 		fc.addFact(r, fr.typeFacts(v, st))
+		if phi.Comment == "rangeindex" && !v.IsAg {
+			// the index of a range-over-slice loop generated by go/ssa runs -1, 0, ..., n-1: at the header
+			// -1 <= phi and phi+1 <= max(n, 0), n being the length the header compares against
+			fc.addFact(r, sApp("<=", "(- 1)", v.S))
+			if iff, ok := h.Instrs[len(h.Instrs)-1].(*ssa.If); ok {
+				if cmp, ok := iff.Cond.(*ssa.BinOp); ok && cmp.Op == token.LSS {
+					if lenV, defined := fr.env[cmp.Y]; defined && !lenV.IsAg {
+						fc.addFact(r, sApp("<=", sApp("+", v.S, "1"), sIte(sApp(">=", lenV.S, "0"), lenV.S, "0")))
+					} else if c, isConst := cmp.Y.(*ssa.Const); isConst {
+						lv := fr.constVal(c)
+						fc.addFact(r, sApp("<=", sApp("+", v.S, "1"), sIte(sApp(">=", lv.S, "0"), lv.S, "0")))
+					}
+				}
+			}
+		}
 		if _, _, isInt := intInfo(phi.Type()); isInt && !v.IsAg {
 			fc.addCand(v.S)
 			fc.addCand(sApp("+", v.S, "1"))
@@ -987,6 +1007,12 @@ func (fr *Frame) exec(b *ssa.BasicBlock, st *State, ins ssa.Instruction) {
 		l := &Loc{Kind: LObj, Base: r, Root: t, Elem: t}
 		fr.zeroInit(st, l)
 		fr.env[x] = Val{S: r, Typ: x.Type(), Loc: l}
+		if activeLogs[fc] == nil {
+			if fc.localRefs == nil {
+				fc.localRefs = map[string]bool{}
+			}
+			fc.localRefs[r] = true
+		}
 	case *ssa.UnOp:
 		fr.execUnOp(b, st, x)
 	case *ssa.BinOp:
@@ -1146,7 +1172,9 @@ func (fr *Frame) exec(b *ssa.BasicBlock, st *State, ins ssa.Instruction) {
 		var vals []Val
 		for _, r := range x.Results {
 			vals = append(vals, fr.val(r))
-			fc.escapeVal(fr.val(r))
+			if !fr.inlined {
+				fc.escapeVal(fr.val(r))
+			}
 		}
 		fr.rets = append(fr.rets, retSite{blk: b, guard: fr.reach[b.Index], st: st.clone(), vals: vals, pos: x.Pos()})
 	case *ssa.Panic:
@@ -1231,6 +1259,7 @@ func (fr *Frame) execUnOp(b *ssa.BasicBlock, st *State, x *ssa.UnOp) {
 		v.Typ = x.Type()
 		fr.env[x] = v
 		fr.assume(b, fr.typeFacts(v, st))
+		fr.notLocal(b, v)
 	case token.NOT:
 		fr.env[x] = Val{S: sNot(fr.scalar(fr.val(x.X))), Typ: x.Type()}
 	case token.SUB:
@@ -1557,6 +1586,9 @@ func (fr *Frame) execSlice(b *ssa.BasicBlock, st *State, x *ssa.Slice) {
 	lo := "0"
 	if x.Low != nil {
 		lo = fr.scalar(fr.val(x.Low))
+		if _, isNum := numeral(lo); !isNum && len(lo) < 2000 {
+			fc.sliceLows = append(fc.sliceLows, lo)
+		}
 	}
 	hi := ln
 	if x.High != nil {
@@ -1656,7 +1688,7 @@ func (fr *Frame) execLookup(b *ssa.BasicBlock, st *State, x *ssa.Lookup) {
 	}
 	m := fr.scalar(fr.val(x.X))
 	k := fr.scalar(fr.val(x.Index))
-	fc.addCand(k)
+	fc.addCandK(k, kKey)
 	el := mt.Underlying().(*types.Map).Elem()
 	v := Val{S: fr.mapValue(st, mt, m, k), Typ: el}
 	// name the value to keep terms small
@@ -1704,7 +1736,7 @@ func (fr *Frame) execNext(b *ssa.BasicBlock, st *State, x *ssa.Next) {
 	exitAll := fmt.Sprintf("(forall ((%s Int)) (! %s :pattern ((select %s %s))))", kk, exitBody, seen, kk)
 	fc.addFactQ(fr.reach[b.Index], sImp(sNot(ok), exitAll), []QInst{{Forall: exitAll, Var: kk, Inst: exitBody}})
 	kv := Val{S: k, Typ: mp.Key()}
-	fc.addCand(k)
+	fc.addCandK(k, kKey)
 	fr.assume(b, sImp(ok, fr.typeFacts(kv, st)))
 	vv := Val{S: fr.mapValueRaw(st, mt, m, k), Typ: mp.Elem()}
 	c := fc.freshConst("next_v", sortOf(mp.Elem()))
@@ -1803,6 +1835,28 @@ func (fr *Frame) checkLoopWrite(heap, row string) {
 				alts = append(alts, sEq(row, r))
 			}
 			f.fc.oblige("loopframe", fmt.Sprintf("loop%d:%s", lc.li.ord, shortHeap(heap)), fr.reach[fr.curBlock.Index], sOr(alts...), token.NoPos, f.propsList)
+		}
+	}
+}
+
+// notLocal: a reference loaded from the heap cannot point to an object this function allocated and has not
+// yet let escape (stored, passed or returned)
+func (fr *Frame) notLocal(b *ssa.BasicBlock, v Val) {
+	if v.IsAg || v.Typ == nil || v.S == "" {
+		return
+	}
+	switch v.Typ.Underlying().(type) {
+	case *types.Pointer, *types.Map:
+	default:
+		return
+	}
+	locals := sortedKeys(fr.fc.localRefs)
+	if len(locals) > 12 {
+		locals = locals[len(locals)-12:]
+	}
+	for _, r := range locals {
+		if r != v.S {
+			fr.assume(b, sNot(sEq(v.S, r)))
 		}
 	}
 }
